@@ -375,7 +375,6 @@ def finalize(res, tier):
     missing = sorted(exp - res.distinct)
     out = {'exhaustive': True, 'triples_expected': len(exp), 'triples_observed_n': len(seen), 'triples_not_observed': missing[:80],
            'unobserved_reasons': sorted(res.sets.get('triples_unobserved', ()))[:80]}
-    allowed_missing = {t for t in missing if t.endswith('|QSS') and ('|nc_' in t)}
-    if len(set(missing) - allowed_missing) > 0.05 * len(exp):
+    if len(missing) > 0.02 * len(exp):
         res.inconclusive.append(f'{len(missing)} of {len(exp)} triples not observed, e.g. {missing[:6]}')
     return out
